@@ -7,3 +7,46 @@ from harness.checks import fanout
 keys, tables = fanout.routing_tables([0])
 json.dump({'keys': [repr(k) for k in keys], 'table': tables['0']}, open('/verif/fixtures/routing.json', 'w'))
 print('routing fixture: %d keys' % len(keys))
+
+
+def released_fixture():
+    """A reference directory in the released on-disk format (every key representation x value mode x Disk class,
+    a 3-shard FanoutCache, a Deque, an Index) + expected.json.  Written ONCE by the pinned version."""
+    import hashlib, shutil, pickle
+    sys.path.insert(0, '/repo')
+    import diskcache
+    from harness.checks.persist import fixture_items, digest, read_back
+    root = '/verif/fixtures/released'
+    shutil.rmtree(root, ignore_errors=True)
+    os.makedirs(root)
+    keys, vals = fixture_items()
+    exp = {}
+    c = diskcache.Cache(os.path.join(root, 'cache-disk'), eviction_policy='least-recently-used', cull_limit=3, size_limit=2 ** 28,
+                        statistics=True, disk_min_file_size=2 ** 12, disk_pickle_protocol=2)
+    for i, k in enumerate(keys):
+        c.set(k, vals[i % len(vals)], tag='t%d' % (i % 3) if i % 2 else None, expire=None if i % 4 else 10 ** 9)
+    c.push('queued', prefix='jobs'); c.push(b'q2')
+    c.close()
+    j = diskcache.Cache(os.path.join(root, 'cache-json'), disk=diskcache.JSONDisk, disk_compress_level=6, disk_min_file_size=2 ** 12)
+    for i, k in enumerate(['a', 'b', 1, 2.5, 'long' * 3]):
+        j[k] = [vals[0], {'x': [1, 2.5, None, True]}, 's' * (5000 if i % 2 else 10)][i % 3]
+    j.close()
+    f = diskcache.FanoutCache(os.path.join(root, 'fanout3'), shards=3, disk_min_file_size=2 ** 12)
+    for i, k in enumerate(keys):
+        f[k] = vals[(i + 1) % len(vals)]
+    dq = f.deque('dq'); dq.extend([1, 'two', b'3' * 5000, (4, 5)])
+    ix = f.index('ix'); ix.update([('a', 1), (2, 'two'), ((3, 4), b'x' * 5000)])
+    f.close()
+    d = diskcache.Deque([10, 'x', b'y' * 6000, None], directory=os.path.join(root, 'deque'), maxlen=None); d.cache.close()
+    x = diskcache.Index(os.path.join(root, 'index'), [('k1', 1), (2, [1, 2]), ((1, 2), 'v' * 7000)]); x.cache.close()
+    json.dump(read_back(root), open(os.path.join(root, 'expected.json'), 'w'), indent=0, sort_keys=True)
+    # drop SQLite side files so that the committed fixture is stable
+    for dp, dn, fn in os.walk(root):
+        for n in fn:
+            if n.endswith('-wal') or n.endswith('-shm'):
+                os.remove(os.path.join(dp, n))
+    print('released fixture written:', sum(len(fn) for _, _, fn in os.walk(root)), 'files')
+
+
+if __name__ == '__main__' and len(sys.argv) > 1 and sys.argv[1] == 'released':
+    released_fixture()
